@@ -1,0 +1,9 @@
+//go:build verif
+// +build verif
+
+package etcd
+
+import "github.com/kubewharf/kubebrain/pkg/server/service"
+
+// PeersForSim returns the peer service the handlers consult (role, read revision, proxy).
+func (s *RPCServer) PeersForSim() service.PeerService { return s.peers }
